@@ -38,7 +38,7 @@ pub fn def() -> CheckDef {
         cases: |t| if t == Tier::Quick { 600 } else { 30_000 },
         needs: |t| {
             let m = if t == Tier::Quick { 1 } else { 40 };
-            vec![("distinct_nontrivial", 100 * m), ("format_aeon", 50 * m), ("format_bnet", 5 * m), ("format_sbml", 30 * m), ("k_0", 20 * m), ("k_1", 20 * m), ("k_2", 20 * m), ("k_3", 20 * m), ("analysis_archives", 100 * m), ("sets_reloaded", 500 * m), ("large_entries_reloaded", 10 * m), ("single_formula_analyses", 100 * m), ("both_role_label_analyses", 20 * m)]
+            vec![("distinct_nontrivial", 100 * m), ("format_aeon", 50 * m), ("format_bnet", 5 * m), ("format_sbml", 30 * m), ("k_0", 20 * m), ("k_1", 20 * m), ("k_2", 20 * m), ("k_3", 20 * m), ("analysis_archives", 100 * m), ("sets_reloaded", 500 * m), ("large_entries_reloaded", 10 * m), ("single_formula_analyses", 100 * m), ("both_role_label_analyses", 20 * m), ("extended_list_analyses", 20 * m)]
         },
         run,
         prelude: None,
@@ -513,6 +513,61 @@ fn run_inner(rng: &mut Rng, world: &World, k: u16, format: &str, dir: &str) -> C
             Err(p) => {
                 out.violate(&libg::panic_signature(&p), format!("analyse_formula with a context archive panicked on `{ext}`: {p}"), detail(&p));
                 return out;
+            }
+        }
+    }
+    // (2e) a LIST of extended formulae through the analysis with the archive of (1) as context, every formula using a label
+    // of its own (as a proposition or as a domain): entry i must equal the in-memory batch evaluation of line i
+    {
+        let mut own: Vec<&String> = lib_sets.keys().filter(|l| l.chars().all(|c| c.is_ascii_alphanumeric() || c == '_')).collect();
+        own.sort();
+        rng.shuffle(&mut own);
+        own.truncate(3);
+        if k == 1 && own.len() >= 2 {
+            let lit = world.net.names[0].clone();
+            let mut list: Vec<String> = Vec::new();
+            if rng.coin() {
+                list.push(format!("(EF {lit})"));
+            }
+            for (i, l) in own.iter().enumerate() {
+                // (the first one always has a state variable: the analysis sizes its graph by the list, the archive has k = 1)
+                list.push(match if i == 0 { *rng.pick(&[0usize, 1, 3]) } else { rng.below(4) } {
+                    0 => format!("(!{{x}}: (EX (%{l}% & (EF {{x}}))))"),
+                    1 => format!("(3{{x}} in %{l}%: (@{{x}}: (AX {{x}})))"),
+                    2 => format!("((EF %{l}%) & (~%{l}%))"),
+                    _ => format!("(V{{x}} in %{l}%: (@{{x}}: (EF ({lit} | {{x}}))))"),
+                });
+            }
+            let zip5 = format!("{dir}/ext_list.zip");
+            match libg::guarded(|| analyse_formulae(&bn, list.clone(), PrintOptions::NoPrint, Some(zip5.clone()), Some(zip_path.clone()))) {
+                Ok(Ok(())) => {
+                    out.count("extended_list_analyses");
+                    let loaded = load_bdd_bundle(&zip5, sys.graph.symbolic_context());
+                    let expect = call(|| mc::model_check_multiple_extended_formulae_dirty(list.iter().map(|s| s.as_str()).collect(), &sys.graph, &lib_sets));
+                    if let (Ok(l5), Call::Ok(e5)) = (loaded, expect) {
+                        for (i, e) in e5.iter().enumerate() {
+                            match l5.get(&format!("formula-{i}")) {
+                                Some(s5) if s5.as_bdd() == e.as_bdd() => {}
+                                _ => {
+                                    out.violate(
+                                        "reloaded context differs in effect from the in-memory sets",
+                                        format!("analyse_formulae({list:?}) with the archive as context: entry formula-{i} differs from the in-memory evaluation"),
+                                        detail("extended list"),
+                                    );
+                                    return out;
+                                }
+                            }
+                        }
+                    }
+                }
+                Ok(Err(e)) => {
+                    out.violate("analysis fails on valid formulae", format!("analyse_formulae({list:?}) with a context archive: {e}"), detail(&e));
+                    return out;
+                }
+                Err(p) => {
+                    out.violate(&libg::panic_signature(&p), format!("analyse_formulae({list:?}) with a context archive panicked: {p}"), detail(&p));
+                    return out;
+                }
             }
         }
     }
